@@ -44,7 +44,9 @@ def verdict(probe, text):
     return bool(obs.get("ok"))
 
 
-def compare(probe, res, toks, atoms, rng, dims, with_verdict):
+def compare(probe, res, toks, atoms, rng, dims, with_verdict, starts=None):
+    if starts:
+        dims = list(dims) + [("oscat", None)]
     canon = spell.canonical(toks)
     k0, v0 = observe(probe, canon)
     res.evaluations += 1
@@ -54,7 +56,11 @@ def compare(probe, res, toks, atoms, rng, dims, with_verdict):
     verdict0 = verdict(probe, canon) if with_verdict else None
     good = True
     for dim, opts in dims:
-        text = spell.respell(toks, rng, **opts)
+        if dim == "oscat":
+            # OSCAT description blocks (key comments around free text) in front of declarations are comments too
+            text = spell.respell(spell.with_oscat(toks, starts, rng), rng, trivia=rng.random() < 0.5)
+        else:
+            text = spell.respell(toks, rng, **opts)
         if text == canon:
             continue
         k1, v1 = observe(probe, text)
@@ -104,7 +110,8 @@ def shard(shard_i, nshards, payload):
             rng = core.rng_for(seed, "c08", i)
             g = gen.Gen(rng, avoid=bad, depth=rng.randint(1, 4))
             toks, _exp = g.library(rng.randint(1, 8) if i % 4 else 1)
-            ok = compare(probe, res, toks, g.atoms, rng, DIMS * payload["rounds"], with_verdict=(i % 3 == 0))
+            ok = compare(probe, res, toks, g.atoms, rng, DIMS * payload["rounds"], with_verdict=(i % 3 == 0),
+                         starts=g.decl_starts)
             if ok and len(res.samples) < 2 and i < 4 * nshards:
                 res.sample({"canonical": spell.canonical(toks)[:200],
                             "respelled": spell.respell(toks, rng, **DIMS[-1][1])[:300]})
@@ -125,25 +132,28 @@ def shard(shard_i, nshards, payload):
                 continue
             codes0 = sorted(d["code"] for d in o0["diags"])
             good = True
-            for k in range(3):
-                text = vgen.recase_identifiers(canon, rng, 0.6)
+            for k in range(4):
+                text = vgen.recase_identifiers(canon, rng, 0.6) if k < 3 else vgen.render_unit(decls, oscat=rng)
+                if text == canon:
+                    continue
                 o1 = probe.run({"op": "analyze", "files": [["c08.st", text]]})
                 res.evaluations += 1
-                res.count("dim:idcase-unit")
-                case = {"canonical": canon, "respelled": text, "dimension": "idcase-unit", "planted": planted}
+                dim_u = "idcase-unit" if k < 3 else "oscat-unit"
+                res.count("dim:" + dim_u)
+                case = {"canonical": canon, "respelled": text, "dimension": dim_u, "planted": planted}
                 if "ok" not in o1:
-                    res.violation("crash", "idcase-unit:crash", o1.get("panic"), case)
+                    res.violation("crash", dim_u + ":crash", o1.get("panic"), case)
                     good = False
                 elif not o1["parse"][0]["ok"]:
-                    res.violation("rejected-respelling", "idcase-unit:reject", o1["parse"][0]["diag"]["primary"]["msg"][:160], case)
+                    res.violation("rejected-respelling", dim_u + ":reject", o1["parse"][0]["diag"]["primary"]["msg"][:160], case)
                     good = False
                 else:
                     codes1 = sorted(d["code"] for d in o1["diags"])
                     if (not codes0) != (not codes1):
-                        res.violation("different-verdict", "idcase-unit:verdict", {"canonical": codes0, "respelled": codes1}, case)
+                        res.violation("different-verdict", dim_u + ":verdict", {"canonical": codes0, "respelled": codes1}, case)
                         good = False
                     elif set(codes0) != set(codes1):
-                        res.violation("different-codes", "idcase-unit:codes", {"canonical": codes0, "respelled": codes1}, case)
+                        res.violation("different-codes", dim_u + ":codes", {"canonical": codes0, "respelled": codes1}, case)
                         good = False
             if good:
                 res.distinct.add(core.key_of("unit", i))
